@@ -216,3 +216,111 @@ def returns_{pyname}(s0: int, s1: int, n: int, a: int, s: str, t: str) -> bool:
 '''
 for _i, _f in enumerate(sorted(FUNCS)):
     define(_SRCF.format(fname=_f, pyname=_f.replace('-', '_'), tier='quick' if _i % 2 == 0 else 'thorough'), globals())
+
+
+# --- added after round-2 seeded changes: map(K, V) / array(T) / function tests, also with nested value types -----------------------
+
+MTYPES = ['map(*)', 'map(xs:integer, xs:string)', 'map(xs:integer, xs:integer)', 'map(xs:string, xs:integer)', 'map(xs:integer, item()*)',
+          'map(xs:integer, map(xs:string, xs:integer))', 'map(xs:integer, map(xs:string, xs:string))', 'map(xs:integer, array(xs:integer))',
+          'map(xs:integer, function(xs:integer, xs:integer) as xs:integer)', 'array(*)', 'array(xs:integer)', 'array(xs:string)',
+          'array(map(xs:integer, xs:string))', 'function(*)', 'item()', 'xs:integer']
+TOK_M = {t: P31.parse('$v instance of %s' % t) for t in MTYPES}
+VALUES = parse_all({
+    'm_int_str': 'map{$k: $s}', 'm_int_int': 'map{$k: $k2}', 'm_str_int': 'map{$s: $k}', 'm_nested': 'map{$k: map{$s: $k2}}',
+    'm_arr': 'map{$k: [$k2]}', 'm_fun': 'map{$k: function($a as xs:integer, $b as xs:integer) as xs:integer { $a + $b }}',
+    'a_int': '[$k, $k2]', 'a_str': '[$s]', 'a_map': '[map{$k: $s}]', 'a_empty': '[]', 'm_empty': 'map{}'})
+# reference: which value shapes match which types
+MATCH = {
+    'm_int_str': {'map(*)', 'map(xs:integer, xs:string)', 'map(xs:integer, item()*)', 'function(*)', 'item()'},
+    'm_int_int': {'map(*)', 'map(xs:integer, xs:integer)', 'map(xs:integer, item()*)', 'function(*)', 'item()'},
+    'm_str_int': {'map(*)', 'map(xs:string, xs:integer)', 'function(*)', 'item()'},
+    'm_nested': {'map(*)', 'map(xs:integer, item()*)', 'map(xs:integer, map(xs:string, xs:integer))', 'function(*)', 'item()'},
+    'm_arr': {'map(*)', 'map(xs:integer, item()*)', 'map(xs:integer, array(xs:integer))', 'function(*)', 'item()'},
+    'm_fun': {'map(*)', 'map(xs:integer, item()*)', 'map(xs:integer, function(xs:integer, xs:integer) as xs:integer)', 'function(*)', 'item()'},
+    'a_int': {'array(*)', 'array(xs:integer)', 'function(*)', 'item()'},
+    'a_str': {'array(*)', 'array(xs:string)', 'function(*)', 'item()'},
+    'a_map': {'array(*)', 'array(map(xs:integer, xs:string))', 'function(*)', 'item()'},
+    'a_empty': {'array(*)', 'array(xs:integer)', 'array(xs:string)', 'array(map(xs:integer, xs:string))', 'function(*)', 'item()'},
+    'm_empty': {t for t in MTYPES if t.startswith('map(')} | {'function(*)', 'item()'},
+}
+_MSRC = '''
+@ob(budget=120, family='map-array-types', bound='value {shape} (integer keys in [0,2], string keys over {{"", a, b}}, other members unbounded integers) against {n} map/array/function types incl. nested value types',
+    funcs=[ST + ':match_sequence_type (map/array/function branches)', 'instance of'])
+def inst_struct_{shape}(k: int, k2: int, s: str) -> bool:
+    """
+    pre: len(s) <= 1 and 0 <= k <= 2 and (len(s) == 0 or 'a' <= s <= 'b')
+    post: _
+    """
+    v = VALUES[{shape!r}].evaluate(XPathContext(item=1, variables=dict(k=k, k2=k2, s=s)))
+    for t in MTYPES:
+        want = t in MATCH[{shape!r}]
+        if TOK_M[t].evaluate(XPathContext(item=1, variables=dict(v=v))) != want:
+            return False
+        if match_sequence_type(v, t, P31) != want:
+            return False
+    return True
+'''
+for _shape in VALUES:
+    define(_MSRC.format(shape=_shape, n=len(MTYPES)), globals())
+
+
+# --- kind tests on nodes of a small document (xsi:nil chosen by the solver) ---------------------------------------------------------
+
+from harness.common import pyet as _pyet  # noqa: E402
+_ETK = _pyet()
+XSI = 'http://www.w3.org/2001/XMLSchema-instance'
+KT = parse_all({k: '/a/b instance of %s' % k for k in (
+    'element()', 'element(b)', 'element(c)', 'element(*)', 'element(b, xs:untyped)', 'element(b, xs:untyped?)', 'element(*, xs:untyped?)',
+    'node()', 'item()', 'text()', 'comment()', 'attribute()', 'document-node()', 'element()+', 'element()?')})
+KT2 = parse_all({'text': '/a/b/text() instance of text()', 'comment': '/a/comment() instance of comment()', 'comment_node': '/a/comment() instance of node()',
+                 'pi': '/a/processing-instruction() instance of processing-instruction()', 'attr': '/a/b/@x instance of attribute(x)',
+                 'attr_other': '/a/b/@x instance of attribute(y)', 'doc': '(/) instance of document-node()', 'doc_el': '(/) instance of document-node(element(a))',
+                 'seq': '/a/node() instance of node()+', 'seq_el': '/a/node() instance of element()+', 'empty': '/a/zz instance of element()?',
+                 'empty1': '/a/zz instance of element()'})
+
+
+@ob(budget=120, bound='document <a><b x=.. [xsi:nil=true|false|absent]>t</b><!--c--><?p q?></a>, nil state chosen by the solver: kind tests by name/kind/occurrence; a nilled element needs T? in element(N, T)',
+    funcs=['elementpath/xpath2/_xpath2_operators.py:select__element_kind_test and other kind tests', ST + ':match_sequence_type'])
+def kind_tests_on_nodes(nil: int) -> bool:
+    """
+    pre: 0 <= nil <= 2
+    post: _
+    """
+    a = _ETK.Element('a')
+    b = _ETK.SubElement(a, 'b')
+    b.set('x', '1')
+    b.text = 't'
+    if nil:
+        b.set('{%s}nil' % XSI, 'true' if nil == 1 else 'false')
+    a.append(_ETK.Comment('c'))
+    a.append(_ETK.ProcessingInstruction('p', 'q'))
+    doc = _ETK.ElementTree(a)
+    nilled = nil == 1
+    want = {'element()': True, 'element(b)': True, 'element(c)': False, 'element(*)': True, 'element(b, xs:untyped)': not nilled,
+            'element(b, xs:untyped?)': True, 'node()': True, 'item()': True, 'text()': False,
+            'comment()': False, 'document-node()': False, 'element()+': True, 'element()?': True}
+    for k, w in want.items():
+        if KT[k].evaluate(XPathContext(doc)) != w:
+            return False
+    want2 = {'text': True, 'comment': True, 'comment_node': True, 'pi': True, 'attr': True, 'attr_other': False, 'doc': True, 'doc_el': True,
+             'seq': True, 'seq_el': False, 'empty': True, 'empty1': False}
+    for k, w in want2.items():
+        if KT2[k].evaluate(XPathContext(doc)) != w:
+            return False
+    return True
+
+
+@ob(budget=60, kind='witness', finding='C18-kindtest-instance-of', bound='element b with an attribute, not nilled: instance of attribute() and element(*, xs:untyped?)',
+    funcs=['elementpath/xpath2/_xpath2_operators.py:evaluate__instance_expression (kind test branch)'])
+def known_kindtest_instance_of(nil: int) -> bool:
+    """
+    pre: nil == 0 or nil == 2
+    post: _
+    """
+    a = _ETK.Element('a')
+    b = _ETK.SubElement(a, 'b')
+    b.set('x', '1')
+    if nil:
+        b.set('{%s}nil' % XSI, 'false')
+    doc = _ETK.ElementTree(a)
+    return KT['attribute()'].evaluate(XPathContext(doc)) is False and KT['element(*, xs:untyped?)'].evaluate(XPathContext(doc)) is True
